@@ -668,3 +668,23 @@ def _spec_input_ok(tx, inp):
 
 
 TX_VERIFY_CASES = [_tx_verify_case(n)._contract.key for n in (1, 2, 3)]
+
+
+# any number of inputs: loop invariant "every input before k verified under its own digest"
+_InVElem = RecordOf(Input, index_n=Position(), hash_type=Int(1, 255), witness_type=Const('segwit'), ghost_id=Int(0, 10 ** 6))
+
+
+@loop('bitcoinlib.transactions.Transaction.verify', 0, modifies=('self.verified',), havoc_types={'self.verified': Bool})
+def tx_verify_inv(self, k):
+    return 0 <= k and k <= len(self.inputs) and forall(0, k, lambda j: _spec_input_ok(self, self.inputs[j]))
+
+
+@contract('bitcoinlib.transactions.Transaction.verify', case='any-count', props=('C02',))
+class tx_verify_any_count:
+    """Transaction.verify over ANY number of inputs (loop invariant): True exactly when every input verifies under the digest computed for ITS
+    own index, hash type and witness type; the verified flag is set accordingly."""
+    params = {'self': RecordOf(Transaction, inputs=ListOf(_InVElem), verified=Const(None), ghost_tx=Const(True))}
+    native_skip = True
+
+    def ensures(self, result):
+        return result == forall(0, len(self.inputs), lambda j: _spec_input_ok(self, self.inputs[j])) and self.verified == result
